@@ -611,10 +611,17 @@ func syncOnce(o Op, sched Op) map[string]interface{} {
 					nreq++
 				}
 			}
-			out["again"] = map[string]interface{}{
+			ag := map[string]interface{}{
 				"send": errClass(res2.sendErr, res2.sendRet), "recv": errClass(res2.recvErr, res2.recvRet),
 				"reqs": nreq, "notifs": len(res2.notifs), "after": snapsToJSON(after2),
 			}
+			if res2.recvErr != nil {
+				ag["recverr"] = res2.recvErr.Error()
+			}
+			if res2.sendErr != nil {
+				ag["senderr"] = res2.sendErr.Error()
+			}
+			out["again"] = ag
 		}
 	}
 	return out
